@@ -6,7 +6,7 @@
 set -u
 cd /verif/harness || exit 2
 TB=$HOME/.rustup/toolchains/nightly-x86_64-unknown-linux-gnu/lib/rustlib/x86_64-unknown-linux-gnu/bin
-RUSTFLAGS="-C instrument-coverage" CARGO_NET_OFFLINE=true cargo +nightly build --release --offline --target-dir target/cov >/dev/null 2>&1 || { echo build failed; exit 2; }
+LLVM_PROFILE_FILE=/verif/harness/target/cov/build-%p-%m.profraw RUSTFLAGS="-C instrument-coverage" CARGO_NET_OFFLINE=true cargo +nightly build --release --offline --target-dir target/cov >/dev/null 2>&1 || { echo build failed; exit 2; }
 C=/verif/harness/target/cov
 rm -rf $C/prof $C/root; mkdir -p $C/prof $C/root
 # scratch root: same inputs, own evidence/replays
